@@ -974,10 +974,28 @@ def encode_optional_contract():
     def ensures(cx, s0, a0, s1, a1, ret):
         e, tct = tparts(cx, a0)
         al, sz = max(4, wire_align(cx, tct)), wire_size(cx, tct)
-        return [('ret', ret.addr == a0['data'].addr + bv(al + sz))]
+        r = [('ret', ret.addr == a0['data'].addr + bv(al + sz))]
+        # content (C19 / C03): the presence flag is one 32-bit word in the requested byte order; the gap up to an
+        # 8-aligned value and, when nothing is set, the value slot are not written (padding stays what message::encode
+        # zero-filled).  Stated where the last writer is known: an unset optional, or a scalar / enum value (a composite
+        # value is written by its own encode, whose contract carries no frame).
+        data = a0['data'].addr
+        # x is const: its attributes are created on first read, i.e. in the state the body ran on
+        eng = cx.obj_attr(s1, a1['x'].path, 'engaged', z3.BoolSort())
+        known = z3.BoolVal(True) if tct.kind == 'int' else z3.Not(eng)
+        flag = z3.If(eng, z3.BitVecVal(1, 32), z3.BitVecVal(0, 32))
+        r.append(('flag: one 32-bit word in the byte order asked for',
+                  z3.Implies(known, from_bytes(s1.mem, data, 4, is_big(e)) == flag)))
+        for i in range(4, al):
+            r.append(('gap byte %d between flag and value not written' % i,
+                      z3.Implies(known, z3.Select(s1.mem, data + bv(i)) == z3.Select(s0.mem, data + bv(i)))))
+        for i in range(al, al + sz):
+            r.append(('unset: value slot byte %d not written' % i,
+                      z3.Implies(z3.Not(eng), z3.Select(s1.mem, data + bv(i)) == z3.Select(s0.mem, data + bv(i)))))
+        return r
 
     return Contract('do_encode(optional)', match, requires, ensures, modifies=('mem',), setup=setup_write, params=('data', 'x'),
-                    props=('C05', 'C03'))
+                    props=('C05', 'C03', 'C19'))
 
 
 def all_contracts():
